@@ -357,6 +357,26 @@ def check(res, tier, seed):
                 monitor_hits += 1
                 res.violation("streamtear:" + re.sub(r"\d+", "N", vs[0])[:50], "implementation violates %s when a stream link is torn down: %s" % (pid, vs[0]),
                               dict(kind="streamtear", config=r["config"], seed=r["seed"], all=vs, link_error=r.get("linkA")))
+    if pid in ("C12", "C05"):
+        # black-box closure workloads: registrations after failed / cancelled / late calls, closures that stall
+        from . import sys_props
+        crecs, crc, cout = C.run_job(binary, wd, "closures", dict(family="sys", seed=seed, n=(16 if tier == "quick" else 300), cases=["closures"], params=dict(percase=6)), timeout=400)
+        fam["closures(black-box)"] = len(crecs)
+        if crc != 0 and pid == "C05":
+            monitor_hits += 1
+            res.violation("closures-crash", "the process died during the closure workload: %s" % (cout.strip().splitlines() or ["?"])[-1][:300], dict(output=cout[-3000:]))
+        for r in crecs:
+            vs = sys_props.mon_c11(r)
+            if pid == "C12":
+                vs = [v for v in vs if "registration" in v or "late invocation" in v or "CLOSURES-REMAIN" in v]
+            else:
+                vs = [v for v in vs if "stalled" in v or "wedged" in v or "cancelled while" in v or "did not finish" in v or "deadlock" in v]
+                if r.get("hang"):
+                    vs = vs or ["closure workload hangs: %s" % (r.get("notes") or "")]
+            if vs:
+                monitor_hits += 1
+                res.violation("closures:" + re.sub(r"\d+", "N", vs[0])[:50], "implementation violates %s: %s" % (pid, vs[0]),
+                              dict(kind="sys", family=r["family"], config=r["config"], seed=r["seed"], all=vs[:8]))
     if pid == "C14":
         # black-box: hubs with failing and re-established links, notifications probed for atomicity
         from . import sys_props
